@@ -97,7 +97,7 @@ def parse_sexp(text):
 WF_CACHE = {}
 
 
-def wf_violations(pre):
+def wf_violations(pre, nfiles=1):
     """The hypotheses of C18_desugar_never_panics, checked on the parser's output:
     every meta has a file id, log strings are at most 230 bytes, named inputs come
     with one argument each, definition bodies are blocks.  (Checked per definition;
@@ -107,8 +107,10 @@ def wf_violations(pre):
         if text not in WF_CACHE:
             if len(WF_CACHE) > 20000:
                 WF_CACHE.clear()
-            WF_CACHE[text] = wf_violations_def(name, text)
-        bad += WF_CACHE[text]
+            WF_CACHE[text] = (wf_violations_def(name, text), max([int(x) for x in re.findall(r"@\d+:\d+:(\d+)", text)] or [0]))
+        bad += WF_CACHE[text][0]
+        if WF_CACHE[text][1] >= nfiles:       # meta_known lib: the file id names a file of the library
+            bad.append("definition `%s` has a meta of file %d, the project has %d files" % (name, WF_CACHE[text][1], nfiles))
     return bad
 
 
@@ -242,6 +244,20 @@ E2E_POS = [
      "for (var i = 0; i < 2; i++) {{ {P} arr[i] <== {V1}; }}", "i"),
     ("loop_under", 1, "for (var i = 0; i < 2; i++) {{ _ <== {S}; }}",
      "for (var i = 0; i < 2; i++) {{ {P} }}", "i"),
+    # fourth audit: a loop nested in a loop (for in for, while in while, the component only in the inner loop while the
+    # outer one has statements of its own), a `parallel` call, an anonymous component as the input of another
+    ("nest", 1, "for (var i = 0; i < 2; i++) {{ for (var j = 0; j < 2; j++) {{ arr2[i][j] <== {S}; }} }}",
+     "for (var i = 0; i < 2; i++) {{ for (var j = 0; j < 2; j++) {{ {P} arr2[i][j] <== {V0}; }} }}", "i,j"),
+    ("nest_while", 1, "while (v < 2) {{ w = 0; while (w < 2) {{ arr2[v][w] <== {S}; w++; }} v++; }}",
+     "while (v < 2) {{ w = 0; while (w < 2) {{ {P} arr2[v][w] <== {V0}; w++; }} v++; }}", "v,w"),
+    ("nest_inner_only", 1, "for (var i = 0; i < 2; i++) {{ arr[i] <== a; for (var j = 0; j < 2; j++) {{ arr2[i][j] <== {S}; }} }}",
+     "for (var i = 0; i < 2; i++) {{ arr[i] <== a; for (var j = 0; j < 2; j++) {{ {P} arr2[i][j] <== {V0}; }} }}", "i,j"),
+    ("nest_both", 1, "for (var i = 0; i < 2; i++) {{ arr[i] <== {S}; for (var j = 0; j < 2; j++) {{ arr2[i][j] <== a; }} }}",
+     "for (var i = 0; i < 2; i++) {{ {P} arr[i] <== {V0}; for (var j = 0; j < 2; j++) {{ arr2[i][j] <== a; }} }}", "i"),
+    ("par_sub", 1, "o <== parallel {S};", "o <== {V0};", "parallel"),
+    ("par_loop", 1, "for (var i = 0; i < 2; i++) {{ arr[i] <== parallel {S}; }}",
+     "for (var i = 0; i < 2; i++) {{ {P} arr[i] <== {V0}; }}", "parallel,i"),
+    ("as_input", 1, "o <== A1()({S});", "cy = A1(); cy.x1 <== {V0}; o <== cy.y;", "input"),
     ("tuple_mix", 1, "(o, p) <== ({S}, b);", "o <== {V0}; p <== b;", None),
     ("else_body", 1, "if (n == 0) {{ o <== a; }} else {{ o <== {S}; }}",
      "if (n == 0) {{ o <== a; }} else {{ {P} o <== {V0}; }}", "inner"),
@@ -288,9 +304,27 @@ component main = T(1);
 """
 
 
+# witnesses of repaired analysis-side defects, each with the expansion a programmer would write
+E2E_WITNESS = [
+    ("cs0018_anon_in_loop", "cs0018_anon_in_loop.circom", """pragma circom 2.0.0;
+template A() { signal input x; signal output y1; signal output y2; y1 <== x; y2 <== x; }
+template T() {
+  signal input a;
+  signal output o[2];
+  signal output r;
+  component cx[2]; component cy; for (var i = 0; i < 2; i++) { cx[i] = A(); cx[i].x <== a; o[i] <== cx[i].y1; }
+  cy = A(); cy.x <== a; r <== cy.y1;
+}
+component main = T();
+"""),
+]
+
+
 def e2e_pairs():
     """(label, sugared source, expanded source)."""
     out = []
+    for lab, f, exp in E2E_WITNESS:
+        out.append(("e2e/witness/" + lab, open(os.path.join(CORPUS, f)).read(), exp))
     for cl, tname, params, args, named in E2E_CALLS:
         ins, outs = TEMPLATES[tname]
         for pl, nvals, sug, exp, where in E2E_POS:
@@ -299,13 +333,15 @@ def e2e_pairs():
             call_args = ", ".join(("%s %s %s" % a) if named else a[2] for a in args)
             s_text = "%s(%s)(%s)" % (tname, params, call_args)
             byname = {a[0]: a for a in args}
-            idx = "[%s]" % where if where in ("i", "v") else ""
+            flags = (where or "").split(",")
+            ivars = [x for x in flags if x in ("i", "j", "v", "w")]
+            idx = "".join("[%s]" % x for x in ivars)
             comp = "cx" + idx
-            prelude = "%s = %s(%s); " % (comp, tname, params) + " ".join(
+            prelude = "%s = %s%s(%s); " % (comp, "parallel " if "parallel" in flags else "", tname, params) + " ".join(
                 "%s.%s %s %s;" % (comp, i, byname[i][1], byname[i][2]) for i in ins)
             vals = {"V%d" % k: "%s.%s" % (comp, o) for k, o in enumerate(outs)}
-            decl = "component cx%s;" % ("[2]" if where in ("i", "v") else "")
-            if where is None:
+            decl = "component cx%s;" % ("[2]" * len(ivars)) + (" component cy;" if "input" in flags else "")
+            if "{P}" not in exp:
                 body_exp = prelude + " " + exp.format(**vals)
             else:
                 body_exp = exp.format(P=prelude, **vals)
@@ -327,10 +363,16 @@ def gen_name_regex(source):
     name that merely has the shape `x_1_2` is not erased (it was, before the third audit)."""
     ids = sorted(set(TEMPLATE_HEAD.findall(source)), key=lambda x: (-len(x), x))
     alt = "|".join(re.escape(i) for i in ids) or "(?!)"
-    return re.compile(r"(?<![A-Za-z0-9_$])(?:(?:%s)_\d+_\d+|cx|anon_var_\d+_\d+)(?![A-Za-z0-9_$])" % alt)
+    return re.compile(r"(?<![A-Za-z0-9_$])(?:(?:%s)_\d+_\d+|cx|cy|anon_var_\d+_\d+)(?![A-Za-z0-9_$])" % alt)
 
 
 LOC_LINE = re.compile(r"^\s*┌─ .*:(\d+):\d+\s*$")
+
+
+def erase_generated(m):
+    """A generated loop counter becomes `<k>`, a generated (or hand-named) component `<c>`: the signature of the loop
+    counter finding must not cover a finding about the generated COMPONENT."""
+    return "<k>" if m.group(0).startswith("anon_var_") else "<c>"
 
 
 def findings(cli, path, gen_name=None):
@@ -352,10 +394,10 @@ def findings(cli, path, gen_name=None):
         m = re.match(r"^(warning|error|note)(?:\[(\w+)\])?: (.*)$", ln)
         if not m:
             continue
-        msg = gen_name.sub("<c>", m.group(3))
+        msg = gen_name.sub(erase_generated, m.group(3))
         # the index of the generated component array: the generated counter in the sugared program, the loop's own variable
         # (`i` of the for positions, `v` of the while position) in the hand expansion
-        msg = re.sub(r"<c>\[(?:<c>|i|v)\]", "<c>", msg)
+        msg = re.sub(r"<c>(?:\[(?:<k>|i|j|v|w)\])+", "<c>", msg)
         loc = LOC_LINE.match(lines[i + 1]) if i + 1 < len(lines) else None
         res.append("%s[%s]: %s @line %s" % (m.group(1), m.group(2), msg, loc.group(1) if loc else "-"))
     return sorted(res), text[-1500:]
@@ -380,9 +422,9 @@ def multiset_diff(a, b):
 # input - a panic, a rejected definition, a model disagreement, another extra or missing finding - is a violation.
 KNOWN_SIGNATURES = {
     "C18-loop-counter-finding":
-        r"^warning\[CS0008\]: The value assigned to `<c>` is not used in witness or constraint generation\. @line \d+$",
+        r"^warning\[CS0008\]: The value assigned to `<k>` is not used in witness or constraint generation\. @line \d+$",
     "C18-generated-name-capture":
-        r"^warning\[CS0001\]: Declaration of variable `<c>` shadows previous declaration\. @line \d+$",
+        r"^warning\[CS0001\]: Declaration of variable `<[ck]>` shadows previous declaration\. @line \d+$",
 }
 
 
@@ -484,7 +526,7 @@ def evaluate(ctx, HARNESS_BIN, MODEL_BIN, programs):
             continue
         d = fields(o)
         recs.append({"label": lab, "src": src, "impl": d})
-        mlines.append(",".join(map(str, c18gen.line_starts(src))) + "\t" + d["PRE"])
+        mlines.append(c18gen.starts_field(src) + "\t" + d["PRE"])
         midx.append(i)
     model = common.run_lines(MODEL_BIN, ["mirror"], mlines, shards=common.NPROC)
     spec = common.run_lines(MODEL_BIN, ["spec"], mlines, shards=common.NPROC)
@@ -522,10 +564,14 @@ def group_of(label):
         return "random_grammar"
     if label.startswith("random/"):
         return "random_matrix"
+    if label.startswith("multifile/"):
+        return "multifile"
     if label.startswith("e2e/"):
         return "e2e"
     if label.startswith("parser/"):
         return "parser_pairs"
+    if label.startswith("wiring/"):
+        return "wiring"
     return "deep" if "/deep/" in label else "matrix"
 
 
@@ -549,14 +595,33 @@ def desugar_reports(rep):
 def routes(d):
     """What is handed on, per route: the hook's result and the results of the real parse_files in the two modes.
     -> [(route name, definitions text, reports text)]; a route whose text is `=` handed on exactly the hook's POST."""
-    out = [("remove_syntactic_sugar (hook)", d["POST"], d["REP"])]
+    out = [("remove_syntactic_sugar (hook)", d["POST"], d["REP"], d.get("REPCAT"))]
     for key, rk in (("LIB", "LIBREP"), ("PROG", "PROGREP")):
         v = d.get(key)
         if v is None:
             continue
         mode, _, defs = v.partition(" ")
-        out.append(("parse_files -> ParseResult::%s" % mode.capitalize(), d["POST"] if defs == "=" else (defs or mode), d.get(rk, "")))
+        out.append(("parse_files -> ParseResult::%s" % mode.capitalize(), d["POST"] if defs == "=" else (defs or mode), d.get(rk, ""),
+                    d.get(rk + "CAT")))
     return out
+
+
+MAIN_ANON_MSG = "x" + "The main component cannot contain an anonymous call.".encode().hex()
+
+
+def category_failures(route, rep, cats):
+    """'rejected with an ERROR': every report of the desugarer (and the one about an anonymous main component) has
+    the category error; the category list must cover exactly the reports of the list it belongs to."""
+    if cats is None:
+        return ["%s: the harness printed no report categories" % route]
+    items = [x.split(":") for x in cats.split(",")] if cats != "-" else []
+    mine = [c for n, c in items if n in DESUGAR_CODES]
+    fails = []
+    if len(mine) != len(desugar_reports(rep)):
+        fails.append("%s: %d categories for %d reports of the desugarer" % (route, len(mine), len(desugar_reports(rep))))
+    if any(c != "error" for c in mine):
+        fails.append("%s: a report of the desugarer has category %s, not error" % (route, sorted(set(mine) - {"error"})))
+    return fails
 
 
 def judge(rec):
@@ -571,10 +636,11 @@ def judge(rec):
         return ["remove_syntactic_sugar panics"]
     pre_defs = split_defs(d["PRE"])
     seen = set()
-    for route, post, rep in routes(d):
+    for route, post, rep, cats in routes(d):
         if post in ("panic", "io-error"):
             fails.append("%s: %s" % (route, post))
             continue
+        fails += category_failures(route, rep, cats)
         first = post not in seen
         seen.add(post)
         if first:
@@ -600,7 +666,15 @@ def judge(rec):
                 b = {(k, n): t for k, n, t in split_defs(post)}
                 diff = sorted(n for (k, n) in set(a) | set(b) if a.get((k, n)) != b.get((k, n)))
                 fails.append("%s hands on other definitions than remove_syntactic_sugar returned for them: %s" % (route, ", ".join(diff)))
-            if desugar_reports(rep) != desugar_reports(d["REP"]):
+            got, want = desugar_reports(rep), desugar_reports(d["REP"])
+            if route.endswith("Program-anon"):
+                # `component main = A0()();`: parse_files itself must answer the anonymous call with an error report
+                main_reports = [x for x in got if MAIN_ANON_MSG in x]
+                if len(main_reports) != 1:
+                    fails.append("%s: an anonymous main component is answered by %d reports 'The main component cannot contain an "
+                                 "anonymous call.' (expected 1)" % (route, len(main_reports)))
+                got = [x for x in got if MAIN_ANON_MSG not in x]
+            if got != want:
                 fails.append("%s: the desugarer's reports differ from those of remove_syntactic_sugar on the same definitions" % route)
     if "panic" in d["PIPE"]:
         fails.append("CFG/SSA construction panics on what the desugarer handed on: " + d["PIPE"])
@@ -610,13 +684,19 @@ def judge(rec):
 IO_HEAD = re.compile(r"\(T (\S+) \(in([^)]*)\) \(out([^)]*)\)")
 
 
+# the callee templates of the fixed prelude, as text (a program that holds them - in its only file or in an included one -
+# has the ports c18gen.PORTS)
+FIXED_CALLEES = c18gen.PRELUDE[c18gen.PRELUDE.index("template A0"):c18gen.PRELUDE.index("function f1")]
+
+
 def port_order_failures(d, ports):
     """Oracle (i-ports): what TemplateData records as inputs / outputs of a callee (printed by the harness from
     get_declaration_inputs / _outputs) against the ports in the order the generator wrote the declarations.
     -> (failures, number of templates compared)."""
     fails, n = [], 0
     seen = set()
-    for route, post, _rep in routes(d):
+    every = [("TemplateData::new (every parsed template, kept or rejected)", d.get("IO", ""), None, None)]
+    for route, post, _rep, _cats in every + routes(d):
         if post in seen or post in ("panic", "io-error"):
             continue
         seen.add(post)
@@ -697,7 +777,7 @@ def parser_oracle(ctx, HARNESS_BIN, pairs):
     base = {}
     for h, o in zip(("T", "F"), outs[:2]):
         base[h] = len(body_statements(fields(o)["PRE"], "T" if h == "T" else "g"))
-    fails, unusable, n = [], [], 0
+    fails, unusable, shape, n = [], [], [], 0
     N = len(pairs)
     for i, p in enumerate(pairs):
         os_, or_ = outs[2 + i], outs[2 + N + i]
@@ -717,11 +797,75 @@ def parser_oracle(ctx, HARNESS_BIN, pairs):
             continue
         n += 1
         if new_s != want:
+            # second judgement: the expected AST also fixes things no reader of the AST observes (the is_constant
+            # flag, the grouping into ONE initialisation block, wrapper blocks); a difference in those only is a
+            # shape report without input
+            try:
+                same = behaviour_nf(unparse(["block"] + new_s), set()) == behaviour_nf(unparse(["block"] + want), set())
+            except Exception:
+                same = False
+            if same:
+                shape.append({"label": p["label"], "input": p["sugared"], "impl": unparse(new_s)[:500], "spec": unparse(want)[:500]})
+                continue
             fails.append({"label": p["label"], "input": p["sugared"], "parser_pair": p,
                           "impl": "the parser builds for `%s` the AST %s" % (p["statement"], unparse(new_s)[:700]),
                           "spec": "the AST of the plain spelling `%s`, rearranged as the %s spelling says: %s"
                                   % (p["reference_statement"], p["kind"], unparse(want)[:700])})
-    return fails, n, unusable
+    return fails, n, unusable, shape
+
+
+def wiring_oracle(ctx, HARNESS_BIN, progs):
+    """Oracle (i-wiring): which expression reaches which input port under which operator, and which output port
+    reaches which destination, read from the desugared host template of the REAL tool and compared with what the
+    generator states (c18rand.wiring_programs).  Independent of expand_spec, of the mirror and of the recorded port
+    lists: the expected wiring comes from the order in which the callee's declarations were WRITTEN."""
+    outs = common.run_lines(HARNESS_BIN, [], [c18gen.escape(p["src"]) for p in progs], shards=common.NPROC)
+    if len(outs) != len(progs):
+        raise common.BuildError("harness desugar returned %d lines for %d programs" % (len(outs), len(progs)), "")
+    fails, n = [], 0
+    for p, o in zip(progs, outs):
+        rec = {"label": p["label"], "input": p["src"], "spec": "inputs %s; outputs %s" % (p["inputs"], p["outputs"])}
+        if o.startswith("PARSE"):
+            fails.append(dict(rec, impl="a valid use does not parse: " + o[:200]))
+            continue
+        d = fields(o)
+        pre = {nm: t for _k, nm, t in split_defs(d["PRE"])}
+        post = {nm: t for _k, nm, t in split_defs(d["POST"])} if d["POST"] != "panic" else {}
+        if "T" not in post:
+            fails.append(dict(rec, impl="a valid use `%s` is rejected: %s" % (p["statement"], rep_msgs(d.get("REP")))))
+            continue
+        gen = generated_names(pre["T"], post["T"])
+        ins, outs_, inits = {}, {}, []
+
+        def walk(x):
+            if not isinstance(x, list):
+                return
+            if x and x[0] == "sub" and len(x) == 5:
+                _s, name, op, acc, rhe = x
+                port = [a[1] for a in acc[1:] if a[0] == "ca"]
+                if name in gen and port:
+                    ins.setdefault(port[0], []).append((op, unparse(rhe)))
+                elif name in gen and isinstance(rhe, list) and rhe[0] in ("call", "par"):
+                    inits.append(unparse(rhe))
+                elif isinstance(rhe, list) and rhe[0] == "var" and rhe[1] in gen:
+                    rp = [a[1] for a in rhe[2][1:] if a[0] == "ca"]
+                    outs_.setdefault("%s %s" % (name, unparse(acc)), []).append((op, rp[0] if rp else "?"))
+            for y in x:
+                walk(y)
+        walk(strip_metas(parse_sexp(post["T"]))[-1])
+        n += 1
+        want_i = {k: [tuple(v)] for k, v in p["inputs"].items()}
+        want_o = {k: [tuple(v)] for k, v in p["outputs"].items()}
+        bad = []
+        if ins != want_i:
+            bad.append("inputs wired %s, stated %s" % (ins, want_i))
+        if outs_ != want_o:
+            bad.append("outputs read %s, stated %s" % (outs_, want_o))
+        if len(inits) != 1 or ("(call %s" % p["template"]) not in inits[0]:
+            bad.append("component initialised by %s" % inits)
+        if bad:
+            fails.append(dict(rec, impl="`%s`: %s" % (p["statement"], "; ".join(bad)), wiring=p))
+    return fails, n
 
 
 def unparse(x):
@@ -794,14 +938,14 @@ def behaviour_nf(text, generated, printable=False):
 def nf_self_test(HARNESS_BIN):
     """behaviour_nf must identify what it claims to identify and nothing else, on a desugared template of the real
     tool: -> list of complaints."""
-    src = c18gen.program("T", "o <== A2()(a, b); (p, _, q) <== (b, c, A1()(c));")
+    src = c18gen.program("T", "var z = 1; for (var i = 0; i < 2; i++) { arr[i] <== A1()(a); } o <== A2()(a, b); (p, _, q) <== (b, c, A1()(c));")
     d = fields(common.run_lines(HARNESS_BIN, [], [c18gen.escape(src)], shards=1)[0])
     pre = {n: t for _k, n, t in split_defs(d["PRE"])}["T"]
     post = {n: t for _k, n, t in split_defs(d["POST"])}["T"]
     nf = lambda t: behaviour_nf(t, generated_names(pre, t))
     base = nf(post)
     bad = []
-    same = {"other generated names": re.sub(r"\b(A[12])_\d+_\d+", r"\1_7_7", post),
+    same = {"other generated names": re.sub(r"\b(A[12])_(\d+)_(\d+)", r"\1_\2_9\3", post),
             "other metas": re.sub(r"@\d+:\d+:", "@1:2:", post),
             "is_constant": re.sub(r"(\(decl @\S+ \S+ \S+) 1", r"\1 0", post),
             "an empty block more": post.replace("(sub ", "(block @0:0:0) (sub ", 1)}
@@ -809,6 +953,22 @@ def nf_self_test(HARNESS_BIN):
               "another destination": re.sub(r"\(sub (@\S+) p ", r"(sub \1 q ", post, 1),
               "two assignments swapped": re.sub(r"(\(sub @\S+ p [^\n]*?\)\)\)) (\(sub @\S+ q [^\n]*?\)\)\)\))", r"\2 \1", post, 1),
               "a component declaration of another type": post.replace(" comp A2_", " anoncomp A2_", 1)}
+    differ["another dimension"] = re.sub(r"(\(decl @\S+ \(sig mid\) arr 1 \(num @\S+) 3\)", r"\1 4)", post, 1)
+    m = re.search(r"\(initblock @\S+ var \(decl @\S+ var z 1\)", post)
+    if m:
+        def sexp_at(i):
+            depth = 0
+            for j in range(i, len(post)):
+                depth += (post[j] == "(") - (post[j] == ")")
+                if depth == 0:
+                    return post[i:j + 1]
+            return post[i:]
+        a = sexp_at(m.start())
+        b = sexp_at(m.start() + len(a) + 1)
+        if b.startswith("(block "):
+            differ["a declaration moved behind the loop that follows it"] = post.replace(a + " " + b, b + " " + a, 1)
+    if len(differ) < 7:
+        bad.append("the dimension / moved-declaration variants could not be produced")
     for k, t in same.items():
         if t == post or nf(t) != base:
             bad.append("normal form separates `%s`%s" % (k, " (variant not produced)" if t == post else ""))
@@ -832,9 +992,14 @@ def run(ctx, proofs):
     MODEL_BIN = common.build_model("desugar")
     CLI = common.build_cli()
     rand = c18rand.programs(ctx.rng, 16000 if quick else 160000)
+    # one random program in five is a PROJECT of two or three files (the callee templates move to an included file)
+    rand = [(lab, (c18gen.split_program(src, i % 10 == 0) or src) if i % 5 == 0 else src, mode, feats, ports)
+            for i, (lab, src, mode, feats, ports) in enumerate(rand)]
     rand_info = {lab: (mode, feats) for lab, _s, mode, feats, _p in rand}
     rand_ports = {lab: ports for lab, _s, _m, _f, ports in rand if ports}
-    groups = [("corpus", corpus_programs()), ("matrix", c18gen.matrix()), ("deep", c18rand.deep()),
+    mat = c18gen.matrix()
+    multi = [("multifile/" + lab, c18gen.split_program(src, k % 2 == 1)) for k, (lab, src) in enumerate(mat[::9] + c18rand.deep())]
+    groups = [("corpus", corpus_programs()), ("matrix", mat), ("deep", c18rand.deep()), ("multifile", [x for x in multi if x[1]]),
               ("random_matrix", random_programs(ctx, 400 if quick else 4000)),
               ("random_grammar", [(lab, src) for lab, src, _m, _f, _p in rand])]
     programs = [p for _g, ps in groups for p in ps]
@@ -844,6 +1009,7 @@ def run(ctx, proofs):
     ports_compared = 0
     spec_templates_compared = 0
     spec_diff_not_judged = 0
+    files_hist = {}
     spec_cands, spec_seen = [], {}
     spec_every = {"matrix": 30 if quick else 6, "random_matrix": 10 if quick else 5, "random_grammar": 40 if quick else 60}
     stats = {"parse_error": 0, "templates_kept": 0, "templates_rejected": 0, "functions_kept": 0,
@@ -873,7 +1039,9 @@ def run(ctx, proofs):
                 mode = d.get(key, "missing").split(" ")[0]
                 route_modes[key + ":" + mode] = route_modes.get(key + ":" + mode, 0) + 1
             # (i-ports): the fixed prelude's templates (recognised by their text) or the drawn ones
-            ports = rand_ports.get(rec["label"]) or (c18gen.PORTS if rec["src"].startswith(c18gen.PRELUDE) else None)
+            ports = rand_ports.get(rec["label"]) or (c18gen.PORTS if FIXED_CALLEES in rec["src"] else None)
+            nfiles = len(c18gen.files_of(rec["src"]))
+            files_hist[nfiles] = files_hist.get(nfiles, 0) + 1
             if ports and d["POST"] != "panic":
                 pf, pn = port_order_failures(d, ports)
                 ports_compared += pn
@@ -882,9 +1050,13 @@ def run(ctx, proofs):
                                     "spec": "inputs and outputs are recorded in declaration order"})
             if rec["roundtrip"] != d["PRE"]:
                 disagreements.append({"label": rec["label"], "what": "AST wire round trip", "impl": d["PRE"][:300], "model": rec["roundtrip"][:300]})
-            w = wf_violations(d["PRE"])
+            w = wf_violations(d["PRE"], len(c18gen.files_of(rec["src"])))
             if w:
                 wf_fail.append({"label": rec["label"], "input": rec["src"], "what": "; ".join(w)})
+            if d["POST"] != "panic" and m.get("IO") != d.get("IO"):
+                diff_kinds["recorded ports"] = diff_kinds.get("recorded ports", 0) + 1
+                disagreements.append({"label": rec["label"], "input": rec["src"], "what": "recorded ports (env_of vs TemplateData::new)",
+                                      "impl": (d.get("IO") or "")[-400:], "model": (m.get("IO") or "")[-400:]})
             if d["POST"] != m.get("POST") or (d["REP"] != m.get("REP") and d["POST"] != "panic"):
                 kind = classify(d, m)
                 diff_kinds[kind.split(":")[0]] = diff_kinds.get(kind.split(":")[0], 0) + 1
@@ -901,7 +1073,7 @@ def run(ctx, proofs):
                     stats[("templates" if n == "T" else "functions") + ("_kept" if kept else "_rejected")] += 1
                     if kept and sug:
                         stats["host_kept_with_sugar_input"] += 1
-                        if n == "T" and spec_defs.get("T"):
+                        if n == "T" and spec_defs.get("T") and c18gen.FILE_MARK not in rec["src"]:
                             g = group_of(rec["label"])
                             spec_seen[g] = spec_seen.get(g, 0) + 1
                             if g in ("deep", "corpus") or spec_seen[g] % spec_every.get(g, 50) == 1:
@@ -965,9 +1137,15 @@ def run(ctx, proofs):
                             "impl": "template `%s`: the desugared template differs from expand_spec beyond shape (behavioural normal form): %s"
                                     % (d0["template"], d0["impl"]), "spec": d0["spec"]})
 
+    # (i-wiring) which expression reaches which port
+    wprogs = c18rand.wiring_programs(ctx.rng, 1200 if quick else 12000)
+    wfails, wiring_compared = wiring_oracle(ctx, HARNESS_BIN, wprogs)
+    for f in wfails:
+        failing.append(f)
+
     # (i-parser) the parser's share
     ppairs = c18rand.parser_pairs(ctx.rng, 1500 if quick else 15000)
-    pfails, parser_compared, parser_unusable = parser_oracle(ctx, HARNESS_BIN, ppairs)
+    pfails, parser_compared, parser_unusable, parser_shape = parser_oracle(ctx, HARNESS_BIN, ppairs)
     parser_kinds = {}
     for pp in ppairs:
         parser_kinds[pp["kind"]] = parser_kinds.get(pp["kind"], 0) + 1
@@ -1044,7 +1222,9 @@ def run(ctx, proofs):
                 class_only[k["id"]] = class_only.get(k["id"], 0) + 1
     # what must have been exercised for the run to mean anything (each is counted in the evidence)
     vacuous = []
-    for key in ("LIB:library", "PROG:program"):
+    if not files_hist.get(2) or not files_hist.get(3):
+        vacuous.append("no project of two / of three files was explored (%s)" % files_hist)
+    for key in ("LIB:library", "PROG:program", "PROG:program-anon"):
         if not route_modes.get(key):
             vacuous.append("no program went through parse_files in mode %s (%s)" % (key, route_modes))
     if not ports_compared:
@@ -1052,6 +1232,8 @@ def run(ctx, proofs):
     for ft in REQUIRED_FEATURES:
         if not rfeat.get(ft, [0, 0])[0]:
             vacuous.append("no ACCEPTED random program has the feature `%s`" % ft)
+    if wiring_compared < 0.95 * len(wprogs):
+        vacuous.append("only %d of %d wiring programs were compared" % (wiring_compared, len(wprogs)))
     if parser_compared < 0.9 * len(ppairs):
         vacuous.append("only %d of %d parser pairs were comparable (first unusable: %s)"
                        % (parser_compared, len(ppairs), parser_unusable[:1]))
@@ -1062,7 +1244,7 @@ def run(ctx, proofs):
         vacuous.append("only %d of %d expand_spec outputs could be printed, parsed back and compared end to end (first dropped: %s)"
                        % (len(spec_pairs), len(spec_cands), spec_unprintable[:2]))
     vacuous += ["behaviour_nf self-test: " + x for x in nf_self_test(HARNESS_BIN)]
-    if gen_name_regex("template A1() {}").sub("<c>", "`x_1_2` `A1_6_143` `anon_var_3_4` `cx` `A1_6_143x`") != "`x_1_2` `<c>` `<c>` `<c>` `A1_6_143x`":
+    if gen_name_regex("template A1() {}").sub(erase_generated, "`x_1_2` `A1_6_143` `anon_var_3_4` `cx` `A1_6_143x`") != "`x_1_2` `<c>` `<k>` `<c>` `A1_6_143x`":
         vacuous.append("gen_name_regex self-test fails")
     if spec_templates_compared < len(programs):
         vacuous.append("expand_spec was compared on %d templates only" % spec_templates_compared)
@@ -1074,7 +1256,7 @@ def run(ctx, proofs):
         if f.get("parser_pair"):
             return "parser_pairs|" + f["parser_pair"]["kind"]
         t = text_of(f)
-        return group_of(f.get("label", "")) + "|" + re.sub(r"`[^`]*`|\d+|\[[^\]]*\]", "#", t)[:90]
+        return ("e2e" if f.get("e2e_pair") else "desugar") + "|" + re.sub(r"`[^`]*`|\d+|\[[^\]]*\]", "#", t)[:90]
     per_kind, chosen = {}, []
     for f in real_fail:
         k = kind_of(f)
@@ -1084,7 +1266,7 @@ def run(ctx, proofs):
     for f in chosen:
         ctx.violation("desugaring: %s: %s" % (f["label"], text_of(f)[:600]),
                       {"input": f["input"], "impl": f["impl"], "spec": f.get("spec"), "expansion": f.get("expansion"),
-                       "ports": f.get("ports"), "parser_pair": f.get("parser_pair"), "modulo_positions": f.get("modulo_positions"),
+                       "ports": f.get("ports"), "parser_pair": f.get("parser_pair"), "wiring": f.get("wiring"), "modulo_positions": f.get("modulo_positions"),
                        "difference": f.get("difference")})
     if not real_fail:
         if disagreements:
@@ -1102,6 +1284,12 @@ def run(ctx, proofs):
                           % (len(shape_only), d0["label"], d0["template"]),
                           {"broken": "expand_spec vs implementation (shape only: metas / wrapper blocks / is_constant / generated names)",
                            "first": {k: d0[k] for k in ("label", "input", "template", "impl", "spec")}, "count": len(shape_only)}, no_input=True)
+        elif parser_shape:
+            d0 = parser_shape[0]
+            ctx.violation("the parser's AST for a sugared spelling no longer has the expected SHAPE (%d pairs, first: %s); the behavioural "
+                          "normal forms agree on all of them: no wrong parse found" % (len(parser_shape), d0["label"]),
+                          {"broken": "shape of the parser-side builders (is_constant / initialisation-block grouping / wrapper blocks)",
+                           "first": d0, "count": len(parser_shape)}, no_input=True)
         elif vacuous:
             ctx.violation("C18 check is vacuous in part: " + "; ".join(vacuous)[:600], {"broken": "generator / oracle coverage of lib/props/C18.py",
                                                                                       "what": vacuous}, no_input=True)
@@ -1117,7 +1305,7 @@ def run(ctx, proofs):
             ctx.violation("end-to-end pairs: only %d findings with a location were compared on %d pairs: the line comparison is vacuous"
                           % (e2e_located, len(e2e)), {"broken": "location parsing of lib/props/C18.py findings()"}, no_input=True)
     ctx.coverage.update({
-        "evaluations": len(programs) + 2 * len(e2e) + 2 * len(ppairs),
+        "evaluations": len(programs) + 2 * len(e2e) + 2 * len(ppairs) + len(wprogs),
         "distinct_nontrivial": len(nontrivial),
         "rule": "a program is distinct-nontrivial per distinct desugared body of the host template (positions and generated-name suffixes "
                 "erased) or, when it is rejected, per distinct report set",
@@ -1156,9 +1344,11 @@ def run(ctx, proofs):
         "spec_vs_impl_differences_not_judged_beyond_the_first_400": spec_diff_not_judged,
         "spec_templates_compared": spec_templates_compared,
         "parse_files_routes": route_modes,
+        "programs_by_number_of_files": {str(k): v for k, v in sorted(files_hist.items())},
         "callee_port_lists_compared_with_declared_order": ports_compared,
+        "wiring_programs": {"drawn": len(wprogs), "compared": wiring_compared, "failures": len(wfails)},
         "parser_pairs": {"drawn": len(ppairs), "compared": parser_compared, "by_kind": parser_kinds,
-                         "failures": len(pfails), "unusable": len(parser_unusable), "first_unusable": parser_unusable[:2]},
+                         "failures": len(pfails), "shape_only_differences": len(parser_shape), "unusable": len(parser_unusable), "first_unusable": parser_unusable[:2]},
         "vacuity_checks": vacuous or "all met",
         "wf_hypothesis_failures": len(wf_fail),
         "property_failures": len(failing),
@@ -1193,6 +1383,9 @@ def run(ctx, proofs):
         "`anon_var_<line>_<offset>` or `cx`; any other name of that shape is compared verbatim",
         "a failure counts as a known finding only if it is an end-to-end pair whose sugared source is in the finding's input class AND whose "
         "only difference is the recorded extra finding (KNOWN_SIGNATURES); every other failure on an input of that class is a violation",
+        "since /repo f58b98e the three renaming theorems also assume that f identifies no other name with a loop counter "
+        "(forall m k x, counter_name m = Some k -> f x = f k -> x = k): for the f of the hand pairs (generated component -> cx / cy, "
+        "everything else fixed) it holds because a counter is `anon_var_<l>_<o>` and is fixed by f, and `cx` / `cy` are no counters",
         "C18_expand_spec_alpha_renaming / C18_desugar_is_expand_up_to_alpha quantify over every renaming f; their hypotheses fixes_names / "
         "inj_on are about f, not about the program, so there is nothing to evaluate per explored program except for the one f the end-to-end "
         "pairs use (generated component name -> `cx`): `cx` is checked to be absent from every sugared program; the hand expansions in loops "
@@ -1203,7 +1396,19 @@ def run(ctx, proofs):
     ]
 
 
-OPEN = []   # every statement of DESIGN §4 C18 is now a theorem of coq/props/C18.v
+# What the property text says and NO theorem covers (fourth audit: "nothing is left open" was wrong).  Not obligations.
+OPEN = [
+    "findings equal those of the hand-written expansion: forall accepted programs p, findings(p) = findings(expansion p) up to generated "
+    "names - there is no model of the analysis passes here; observed on the end-to-end pairs only (two known findings and, until "
+    "decided, the nested-loop counter deviate)",
+    "the parser's share of the sugar (`==>` / `-->`, declarations of several symbols, named inputs): the AST of the sugared spelling is "
+    "the rearranged AST of the plain spelling - no Gallina model of the parser; observed on the parser pairs",
+    "for an INVALID use, which message is reported and at which node: C18_desugar_errors_exact / _accepts_iff say 'an error exactly on "
+    "the invalid uses', proofs/DesugarErrLoc.v says 'at a meta of the body'; the message class and the position are specified nowhere "
+    "independently (mirror vs implementation only), and the category `error` is observed per report, not modelled",
+    "recorded port DIMENSIONS: C18_recorded_ports_are_declaration_order is about names (`map fst`); dimensions are compared by oracle "
+    "(i-ports) only",
+]
 
 # features of the callee templates and of the bodies that the random generator must have produced in ACCEPTED
 # programs (a run in which one of them never occurs is reported as vacuous)
@@ -1229,8 +1434,15 @@ def replay(ctx, rep):
         print("findings of the sugared program :", a)
         print("findings of the expansion       :", b)
         return 0 if a == b and a is not None else 1
+    if rep.get("wiring"):
+        wf, _n = wiring_oracle(ctx, HARNESS_BIN, [rep["wiring"]])
+        for x in wf:
+            print("desugared:", x["impl"])
+            print("stated   :", x["spec"])
+        print("oracle (i-wiring):", "fails" if wf else "holds")
+        return 1 if wf else 0
     if rep.get("parser_pair"):
-        pf, n, un = parser_oracle(ctx, HARNESS_BIN, [rep["parser_pair"]])
+        pf, n, un, _shape = parser_oracle(ctx, HARNESS_BIN, [rep["parser_pair"]])
         for x in pf:
             print("parser   :", x["impl"])
             print("expected :", x["spec"])
@@ -1240,7 +1452,7 @@ def replay(ctx, rep):
     f = judge(recs[0])
     if "impl" in recs[0] and recs[0]["impl"]["POST"] != "panic":
         d = recs[0]["impl"]
-        ports = rep.get("ports") or (c18gen.PORTS if src.startswith(c18gen.PRELUDE) else None)
+        ports = rep.get("ports") or (c18gen.PORTS if FIXED_CALLEES in src else None)
         if ports:
             f += port_order_failures(d, {k: (list(map(tuple, v[0])), list(map(tuple, v[1]))) for k, v in ports.items()})[0]
         pre = {n: t for k, n, t in split_defs(d["PRE"])}
